@@ -14,7 +14,7 @@ otherwise; (TERM) every cycle of the vertex walk either advances to at_vertex(in
 one-shot wrap flag under wrap; between_lengths_by_control returns None beyond the curve and calls between with (min,max) resp.
 (max,min) of the SAME a,b under the stated conditions; reversed reverses the points once with the same tolerance.
 (GUARD) the walk of between_lengths has exactly two ways out: past last_index, or at-or-before the end station (<=) with the next vertex beyond its
-edge; the stations it is cut at come from at_length (rules shared with C01: exact vertex hit = that vertex, else the segment before the insertion point)."""
+edge; the stations it is cut at come from at_length (rules shared with C01: exact vertex hit = that vertex, else the segment before the insertion point). Round 5: CurveStation2::length_along = L[i] + (L[i+1]-L[i])*f on every path (shared with C01): the seam station of a closed curve reports L, not 0."""
 NOT_DECIDED = "that the walk's stop conditions are the right ones for stations exactly on vertices / the seam / the last edge (they are pinned as found), length conservation, chains of portioning (value-level)"
 ASSUMPTIONS = ["at_vertex(k) reports index k for every k below the last vertex (C01), so `index + 1` strictly increases along the walk"]
 
